@@ -21,7 +21,7 @@ fn words_of(r: &Value) -> Option<Vec<u8>> {
 }
 
 /// everything observable about one binary, as text
-fn observe_bytes(bytes: &[u8]) -> (String, bool) {
+fn observe_bytes(prop: &str, bytes: &[u8]) -> (String, bool) {
     let mut out = String::new();
     let mut bad = false;
     let o = pcompare::compare(bytes);
@@ -44,6 +44,25 @@ fn observe_bytes(bytes: &[u8]) -> (String, bool) {
                     let input: Vec<u32> = bytes.chunks_exact(4).map(|c| u32::from_le_bytes([c[0], c[1], c[2], c[3]])).collect();
                     if input.len() > 5 && a.len() > 5 && input[5..] != a[5..] {
                         out += "note: assembled body differs from the input body (legitimate if the input was not in layout order)\n";
+                    }
+                    // C01: loading the output again gives an equal module
+                    match guarded(|| rspirv::dr::load_words(&a)) {
+                        Ok(Ok(m2)) => {
+                            if crate::bsys::snap(&m2) == crate::bsys::snap(&m) {
+                                out += "reload of the assembled output: equal module\n"
+                            } else {
+                                out += "reload of the assembled output: a DIFFERENT module\n";
+                                bad |= prop == "C01";
+                            }
+                        }
+                        Ok(Err(e)) => {
+                            out += &format!("reload of the assembled output FAILS: {}\n", e);
+                            bad |= prop == "C01";
+                        }
+                        Err(p) => {
+                            out += &format!("reload of the assembled output PANICS: {}\n", p);
+                            bad = true;
+                        }
                     }
                     match crate::disasm_ref::read(&d) {
                         Ok(w) if a.len() >= 5 && w == a[5..] => out += "reference reader: reads back to the assembled stream\n",
@@ -120,7 +139,7 @@ pub fn replay(prop: &str, path: &str) -> i32 {
                 } else {
                     words_of(r)?
                 };
-                Some(observe_bytes(&bytes))
+                Some(observe_bytes(prop, &bytes))
             }
             "c11" => {
                 let buf = unhex(r["buffer"].as_str()?);
